@@ -238,3 +238,27 @@ package server
 //@ loop 1 step [C05] called(server.sessionTerminatedLocked#1) == at(iter1, called(server.sessionTerminatedLocked#1)) + (expiredTime < now ? 1 : 0)
 //@ ensures [C05] forall c string :: has(srv.offlineClients, c) ==> old(has(srv.offlineClients, c)) && srv.offlineClients[c] == old(srv.offlineClients[c])
 //@ ensures [C05] forall c string :: old(has(srv.offlineClients, c)) && !has(srv.offlineClients, c) ==> old(srv.offlineClients[c]) < now
+
+// server.init, the start-up rebuild (C09): every session the session store reports gets a queue store and an
+// unacknowledged-identifier store made for its client id and an entry in the offline table (so that it can be resumed
+// and will expire), and the subscription store is initialised with the client ids of exactly these sessions.
+//@ func defaultNotifier
+//@ ensures result != nil && isfresh(result)
+//@ func (*server).init
+//@ props C09
+//@ requires [C09] srv != nil && srv.queueStore != nil && srv.offlineClients != nil && srv.unackStore != nil
+//@ modifies heap
+// (the persistence / topic-alias factories are looked up in registries; they build stores and do not touch the server)
+//@ abstract call local.newFn pure
+//@ abstract call local.topicAliasMgrFactory pure
+//@ waive panic nil index bounds assert-type overflow requires frame
+//@ call Persistence.NewQueueStore#1 assert [C09] clientID == v.ClientID
+//@ call Persistence.NewUnackStore#1 assert [C09] clientID == v.ClientID
+//@ call Store.Init#1 assert [C09] clientIDs == cids
+// (the tables are made by defaultServer before init runs; a nil table would be a panic, which is not the subject here)
+//@ loop 2 step [C09] srv.queueStore != nil ==> has(srv.queueStore, v.ClientID) && srv.queueStore[v.ClientID] == q
+//@ loop 2 step [C09] srv.unackStore != nil ==> has(srv.unackStore, v.ClientID) && srv.unackStore[v.ClientID] == ua
+//@ loop 2 step [C09] srv.offlineClients != nil ==> has(srv.offlineClients, v.ClientID)
+//@ loop 2 step [C09] called(Persistence.NewQueueStore#1) == at(iter2, called(Persistence.NewQueueStore#1)) + 1 && called(Persistence.NewUnackStore#1) == at(iter2, called(Persistence.NewUnackStore#1)) + 1
+// a store that cannot be made stops the start-up with the error (no half-initialised broker)
+//@ ensures [C09] err == nil ==> called(Store.Init#1) == 1
